@@ -210,11 +210,11 @@ pub fn models() -> &'static Vec<Model> {
                 opt("FirstChar", vec![i(32)]),
                 opt("LastChar", vec![i(33)]),
                 opt("Widths", vec![Val::Array(vec![i(278), i(333)])]),
-                opt("Encoding", vec![n("WinAnsiEncoding"), Val::dict(vec![("BaseEncoding", n("MacRomanEncoding")), ("Differences", Val::Array(vec![i(32), n("space"), n("exclam"), i(200), n("Euro")]))]), Val::dict(vec![("Differences", Val::Array(vec![i(1), n("one")]))])]),
+                opt("Encoding", vec![n("WinAnsiEncoding"), Val::dict(vec![("BaseEncoding", n("MacRomanEncoding")), ("Differences", Val::Array(vec![i(32), n("space"), n("exclam"), i(200), n("Euro")]))]), Val::dict(vec![("Differences", Val::Array(vec![i(1), n("one")]))]), Val::dict(vec![("Differences", Val::Array(vec![i(253), n("yacute"), n("thorn"), n("ydieresis")]))])]),
                 opt("FontDescriptor", vec![fd_val.clone()]),
             ]
         );
-        whole!("Encoding", pdf::encoding::Encoding, vec![n("StandardEncoding"), n("WinAnsiEncoding"), n("MacRomanEncoding"), n("MacExpertEncoding"), n("Identity-H"), Val::dict(vec![("BaseEncoding", n("WinAnsiEncoding")), ("Differences", Val::Array(vec![i(65), n("A"), n("B"), i(70), n("F")]))]), Val::dict(vec![("Differences", Val::Array(vec![i(0), n("zero")]))])]);
+        whole!("Encoding", pdf::encoding::Encoding, vec![n("StandardEncoding"), n("WinAnsiEncoding"), n("MacRomanEncoding"), n("MacExpertEncoding"), n("Identity-H"), Val::dict(vec![("BaseEncoding", n("WinAnsiEncoding")), ("Differences", Val::Array(vec![i(65), n("A"), n("B"), i(70), n("F")]))]), Val::dict(vec![("Differences", Val::Array(vec![i(0), n("zero")]))]), Val::dict(vec![("Differences", Val::Array(vec![i(39), n("quotesingle"), i(253), n("yacute"), n("thorn"), n("ydieresis")]))]), Val::dict(vec![("Differences", Val::Array(vec![i(255), n("ydieresis")]))]), Val::dict(vec![("BaseEncoding", n("MacRomanEncoding")), ("Differences", Val::Array(vec![i(0), n("a"), i(127), n("b"), n("c"), i(254), n("d"), n("e")]))]), Val::dict(vec![("Differences", Val::Array(std::iter::once(i(0)).chain((0..256).map(|c| Val::Name(format!("g{}", c).into_bytes()))).collect()))])]);
         model!(
             "GraphicsStateParameters",
             GraphicsStateParameters,
